@@ -1,7 +1,7 @@
 (* C14 (stretch) — the TYPE of the table of panic sites on the untrusted-keyset
    path of /repo.  The table itself (proofs/UntrustedPanicSitesTable.v: its
    entries carry the propositions that cover them AND their proofs, so it
-   type-checks only if the lemmas exist and state what the entry says) was made
+   type-checks only if the no-panic facts exist) was made
    BY HAND from a reading of
      keyset/validation.go, keyset/handle.go, keyset/keyset.go, keyset/binary_io.go,
      keyset/json_io.go, insecurecleartextkeyset/insecurecleartextkeyset.go,
@@ -35,24 +35,39 @@
 
    The LIST of sites is hand-made: a site the reading missed is not in it (the
    malformed stream and the PANIC observation of the harness are the net under
-   it).  What Coq checks is the COVERAGE column of the listed sites.
+   it).  What Coq checks is the COVERAGE column of the listed sites, and only
+   for the two constructors of FIXED SHAPE:
 
-   Coverage (field s_cov):
-     CModel P pf   the site is a checked operation inside a function of
-                   model/Untrusted.v; P is the no-panic (or rejection) theorem of
-                   that function, pf its proof (proofs/UntrustedProofs.v)
-     CLemma P pf   the code is transcribed AS WRITTEN with Go machine integers in
-                   model/UntrustedSites.v; P says the guard makes it safe for all
-                   inputs, pf is its proof (proofs/UntrustedSitesProofs.v)
-     CArgued w     NO THEOREM: the reading argues (w) that no attacker-controlled
-                   value reaches the expression (constant bounds, static types,
-                   a value tink-go built itself, a range loop over an allocated length)
-     CStdlib w     NO THEOREM: inside the Go standard library; the guard in front
-                   of the call is listed, w names the library behaviour trusted
-                   (in the model the answer is an arbitrary function: record stdlib)
-     CHarnessOnly w  NO THEOREM and no model: only the harness decides (PANIC
-                   observation = violation); w = what exercises it *)
+     CModel op w f pf   op : X -> outcome Y is the checked operation of
+                        model/Untrusted.v that stands for the Go expression
+                        (Bytes.slice, encode_point, ed25519_from_seed ...),
+                        w : exists x, op x = Panic  shows it CAN panic (it is a real
+                        check, not a total function); f : A -> outcome B is the
+                        model function that performs op behind the guard, and
+                        pf : forall a, f a <> Panic.   That f calls op is read off
+                        the model (not expressed in the type).
+     CLemma raw w guard pf   raw : A -> outcome B is the site transcribed AS
+                        WRITTEN with Go machine integers (model/UntrustedSites.v)
+                        WITHOUT its guard, w : exists a, raw a = Panic,
+                        guard : A -> Prop the condition the code establishes in
+                        front of it, pf : forall a, guard a -> raw a <> Panic.
+
+   Neither can be inhabited by an arbitrary proposition: both need a function
+   into `outcome`, an input on which the unguarded operation panics, and a
+   no-panic proof.  The other three constructors carry NO theorem:
+
+     CArgued w       argued in prose (w).  Used for: constant bounds, static
+                     types, values tink-go built itself, range loops; sites whose
+                     model function has no Panic constructor to reach (nil-safe
+                     getters = total getters of the model, length tests in front
+                     of library calls); integer conversions, which wrap rather
+                     than panic (the comparisons after them are theorem
+                     C14_wrapping_conversions_are_rejected, named in w, not
+                     checked by the table)
+     CStdlib w       inside the Go standard library; w names the trusted behaviour
+     CHarnessOnly w  only the harness decides (PANIC observation = violation) *)
 From Coq Require Import String List.
+From Tink Require Import Bytes.
 Import ListNotations.
 Open Scope string_scope.
 
@@ -60,8 +75,10 @@ Inductive site_kind :=
 | KSlice | KIndex | KNilDeref | KIntConv | KMake | KBigInt | KTypeAssert | KStdlib | KExplicitPanic.
 
 Inductive coverage : Type :=
-| CModel (P : Prop) (pf : P)
-| CLemma (P : Prop) (pf : P)
+| CModel {X Y A B : Type} (op : X -> outcome Y) (w : exists x, op x = Panic)
+         (f : A -> outcome B) (pf : forall a, f a <> Panic)
+| CLemma {A B : Type} (raw : A -> outcome B) (w : exists a, raw a = Panic)
+         (guard : A -> Prop) (pf : forall a, guard a -> raw a <> Panic)
 | CArgued (why : string)
 | CStdlib (trusted : string)
 | CHarnessOnly (exercised_by : string).
@@ -71,8 +88,8 @@ Record site := mkSite {
   s_guard : string;      (* documentation: the check in front of the expression, verbatim *)
   s_cov : coverage }.
 
-Definition by_model_theorem (s : site) : bool := match s_cov s with CModel _ _ => true | _ => false end.
-Definition by_site_lemma (s : site) : bool := match s_cov s with CLemma _ _ => true | _ => false end.
+Definition by_model_theorem (s : site) : bool := match s_cov s with CModel _ _ _ _ => true | _ => false end.
+Definition by_site_lemma (s : site) : bool := match s_cov s with CLemma _ _ _ _ => true | _ => false end.
 Definition argued_only (s : site) : bool := match s_cov s with CArgued _ => true | _ => false end.
 Definition is_stdlib (s : site) : bool := match s_cov s with CStdlib _ => true | _ => false end.
 Definition is_harness_only (s : site) : bool := match s_cov s with CHarnessOnly _ => true | _ => false end.
